@@ -8,6 +8,7 @@ package strategy
 import (
 	"context"
 	"fmt"
+	"sort"
 	"time"
 
 	corev1 "k8s.io/api/core/v1"
@@ -151,6 +152,13 @@ func ManageDeployment(client runtimeclient.Client, daemonset *datadoghqv1alpha1.
 		"isRolloutFrozen", result.IsFrozen,
 		"isRollingUpdatePaused", result.IsPaused,
 	)
+
+	// Replace pods that are already unavailable first, so that the deletion budget is only spent
+	// on available pods once no unavailable outdated pod is left (map iteration order is random).
+	sort.SliceStable(allPodToDelete, func(i, j int) bool {
+		return !podutils.IsPodAvailable(params.PodByNodeName[allPodToDelete[i]], 0, metaNow) &&
+			podutils.IsPodAvailable(params.PodByNodeName[allPodToDelete[j]], 0, metaNow)
+	})
 
 	// When paused, we only stop deleting pods.
 	// The goal is to pause rolling out the new replicaset but also to continue creating pods
